@@ -145,6 +145,7 @@ func errorHandled(f *ssa.Function, errVal ssa.Value) (bool, string) {
 }
 
 func c03(c *Ctx) {
+	defer c03writesDecidedFromIndex(c)
 	P, R := c.P, c.R
 	R.Explain("R03.1", "T-SQL (engine of C08) restricted to the statements reachable from the message commands (Mailbox.Append/Copy/Move/Store/Expunge/Fetch, State.Create/Delete/Rename): valid against the schema and placeholder count = bound arguments for every batch size (both sides of the chunk limit).")
 	R.Explain("R03.2", "transaction shape: on any path of Mailbox.Copy/Move/Store/Expunge and State.Create/Delete/Rename at most one mutating commit wrapper (stateDBWrite/stateDBWriteResult) is executed, so a command answered NO/BAD is one rolled-back transaction.")
@@ -671,4 +672,51 @@ func c03deletedPerMailbox(c *Ctx) {
 			"with cameFromDifferentMailbox set, the snapshot write can be reached without SetOnSelf(\\Deleted, current local value): a STORE FLAGS in another mailbox clears this mailbox's \\Deleted in the snapshot and the next EXPUNGE/CLOSE skips the message")
 	}
 	R.Min("R03.6", "functions that distinguish the foreign-mailbox case", n, 1)
+}
+
+// c03writesDecidedFromIndex (R03.8): inside a write transaction nothing is decided from the session's own copy of the flags.
+func c03writesDecidedFromIndex(c *Ctx) {
+	P, R := c.P, c.R
+	R.Explain("R03.8", "what a command writes is decided from the index, not from the session's view: in internal/state no function that works inside a write transaction (has a db.Transaction parameter; closures included) reads the flags of a snapshot message (field snapMsg.flags).  The snapshot lags behind the authoritative state - another session may have changed the flags without this session having flushed - so skipping or shaping a write by it makes STORE a no-op where the reference semantics require a change (the functions compare with tx.GetMessagesFlags instead).")
+	flagsFld := c.fieldOf("internal/state", "snapMsg", "flags")
+	if flagsFld == nil {
+		R.Fail("R03.8", "anchor|snapMsg.flags", "-", "field snapMsg.flags not found")
+		return
+	}
+	hasTx := func(f *ssa.Function) bool {
+		for g := f; g != nil; g = g.Parent() {
+			for _, p := range g.Params {
+				if engine.IsNamed(p.Type(), "db", "Transaction") {
+					return true
+				}
+			}
+		}
+		return false
+	}
+	n := 0
+	for _, f := range c.funcsInPkg("internal/state") {
+		if !hasTx(f) {
+			continue
+		}
+		n++
+		bad := ""
+		for _, b := range f.Blocks {
+			for _, in := range b.Instrs {
+				switch t := in.(type) {
+				case *ssa.FieldAddr:
+					if fieldOfAddr(t) == flagsFld {
+						bad = P.Pos(t.Pos())
+					}
+				case *ssa.Field:
+					if fieldOfField(t) == flagsFld {
+						bad = P.Pos(t.Pos())
+					}
+				}
+			}
+		}
+		if bad != "" || f.Parent() == nil {
+			R.Check(bad == "", "R03.8", c.name(f)+"|no snapshot flags in a write transaction", P.Pos(f.Pos()), "the function does not read snapMsg.flags", "a function working inside a write transaction reads the session's copy of a message's flags ("+bad+"): what is written depends on a view that may be stale")
+		}
+	}
+	R.Min("R03.8", "functions of internal/state working inside a write transaction", n, 20)
 }
